@@ -161,7 +161,22 @@ func VfC08Announce() {
 	before := make([]byte, len(f.MessageDataWithAuth()))
 	copy(before, f.MessageDataWithAuth())
 
+	// C16: the frame may have waited in the router's input queue while its receive link was closed
+	// (Close marks the link closing, RemoveLink unregisters it and removes the routes via that peer)
+	closedMeanwhile := vf.Param("CLOSED") == 1
+	if closedMeanwhile {
+		recv.Closing = true
+		inst.peer.VfDrop(recv)
+	}
+
 	err = h.Handle(vfW, f, &PingHeader{}, f.MessageData())
+
+	if closedMeanwhile {
+		// nothing removes a route added now: direct-peer routes never expire and the removal for
+		// this peer has already happened
+		vf.Assert(len(vfAddedRoutes) == 0, "route-added-via-a-link-that-is-closed-and-unregistered")
+		vf.Reach("handled-after-close")
+	}
 
 	// ---- every hop record that was used verified, with this announcement's context, under its router's key ----
 	routeAdded := len(vfAddedRoutes) > 0
